@@ -224,7 +224,7 @@ Section HistorySpec.
             | Some cd =>
                 match nth_error (cd_methods cd) m with
                 | Some sg =>
-                    let xenv := match cd_kind cd with KGeneric ids => xenv_of ids xs | _ => xenv_none end in
+                    let xenv := xenv_of (cd_tparams cd) xs in
                     Some (call_spec ctx xenv (sig_positions sg) (args ++ [ret]),
                           must_be_mismatch ctx xenv (sig_positions sg) (args ++ [ret]))
                 | None => None
